@@ -9,6 +9,14 @@ EXTENDS BuilderRules, EpochRules, VarGraph, BuilderOps, TraceBatch
 VARIABLES tnow, tin     \* epoch-time model: current time and time within the epoch
 TInit == BatchInit /\ tnow = 0 /\ tin = 0
 
+\* an engine is a function of the builder's final configuration: every order of the setter calls (the first event
+\* of the trace is the reference) gives bit-identical results
+TBuilderOrder ==
+  /\ IsEvent("builder_order")
+  /\ Chk("same_configuration_in_any_call_order_gives_identical_results",
+         Ev.digest = Evs[1].digest /\ Ev.keys = Evs[1].keys /\ SeqToSet(Ev.order) = SeqToSet(Evs[1].order))
+  /\ UNCHANGED <<tnow, tin>> /\ Step
+
 Cfg2(e) == [kernels |-> [i \in 1..Len(e.kernels) |->
                            [keys |-> SeqToSet(e.kernels[i].keys), ident |-> e.kernels[i].ident]],
             qgs |-> e.qgs, hasModel |-> e.has_model, hasInit |-> e.has_init,
@@ -103,5 +111,5 @@ TRename ==
          Ev.names_after = Renamed(Ev.inp, SeqToSet(Ev.added), Ev.names, Sub))
   /\ UNCHANGED <<tnow, tin>> /\ Step
 
-TNext == TReplace \/ TReplaceVar \/ TRename \/ TWiring \/ TVarGraph \/ TBuilder \/ TEpochStart \/ TAdvance \/ TSetSeed \/ TGroup
+TNext == TBuilderOrder \/ TReplace \/ TReplaceVar \/ TRename \/ TWiring \/ TVarGraph \/ TBuilder \/ TEpochStart \/ TAdvance \/ TSetSeed \/ TGroup
 =============================================================================
